@@ -36,6 +36,9 @@ type World struct {
 	byName map[string]*ssa.Function
 	cg     *callgraph.Graph
 	Notes  []string // anchors located by role rather than by name (roles.go)
+	// AsWritten is the same tree without helper normalisation (canonical names only); nil when nothing was inlined.
+	// Rules that are anchored on a function boundary of their own (e.g. the per-option help renderer) use it.
+	AsWritten *World
 	// statistics for the evidence file
 	NFiles, NFuncs, NBlocks, NInstrs int
 	fileOf                           map[*ast.File]*packages.Package
@@ -74,7 +77,11 @@ func LoadWorld(repo string, overlay map[string][]byte, extraEnv []string) (*Worl
 		w, cur = w2, ov
 	}
 	// helper normalisation (inline.go): functions that are not in the reference table are inlined into their callers
-	return normaliseHelpers(w, repo, cur, extraEnv), nil
+	nw := normaliseHelpers(w, repo, cur, extraEnv)
+	if nw != w {
+		nw.AsWritten = w
+	}
+	return nw, nil
 }
 
 func loadWorldRaw(repo string, overlay map[string][]byte, extraEnv []string) (*World, error) {
